@@ -1,7 +1,8 @@
-(* C03 — every data field decodes to the value its bits encode.  For EVERY table set, payload, offset and width.
-   (The encoder round-trip theorem is in Properties/C03rt.v once Proofs/DecodeRoundtrip.v is part of the build.) *)
+(* C03 — every data field decodes to the value its bits encode.  For EVERY table set, layout, assignment of raw field values,
+   padding, trailing bytes and label option. *)
 From Coq Require Import NArith ZArith List String.
-From PyRtcm Require Import Base.Bytes Model.Types Model.Message Spec.FieldGrammar Proofs.DecodeBits Proofs.DecodeWalk Proofs.DecodeExtend Proofs.DecodeSingle.
+From PyRtcm Require Import Base.Bytes Model.Types Model.Message Spec.FieldGrammar Spec.Encoder Proofs.DecodeBits Proofs.DecodeWalk Proofs.DecodeExtend Proofs.DecodeSingle
+  Proofs.DecodeRoundtrip Proofs.RoundtripOccur Proofs.RoundtripChange.
 Import ListNotations. Open Scope Z_scope.
 
 (* shift-and-mask extraction on the payload integer = the w bits at offset off of the payload's bit string *)
@@ -15,7 +16,7 @@ Print Assumptions C03_extract_is_slice.
    offset advanced by the width -- the model's step equals the bit-list specification, errors included *)
 Theorem C03_field_step : forall T ident anam idx fd o off,
   find_field T anam = Some fd -> is_label_ty (df_ty fd) = false -> pwf o -> 0 <= off ->
-  set_single T ident anam idx (o, off) = field_step T ident anam idx fd (o, off).
+  set_single T ident anam idx (o, off) = FieldGrammar.field_step T ident anam idx fd (o, off).
 Proof. exact set_single_spec. Qed.
 Goal True. idtac "PA:C03_field_step". Abort.
 Print Assumptions C03_field_step.
@@ -48,3 +49,49 @@ Theorem C03_trailing_bytes : forall T p lbl o x, construct T (Some p) lbl = Ok o
 Proof. exact decode_trailing. Qed.
 Goal True. idtac "PA:C03_trailing_bytes". Abort.
 Print Assumptions C03_trailing_bytes.
+
+(* THE ROUND TRIP.  `lay_out` (Spec/Encoder.v) is an encoder written from the property's words: it lays the raw values out in
+   definition order as a bit list and lists the attributes that must result; it knows nothing of offsets or shifts.  Whatever
+   it lays out, with any padding to a byte boundary and any trailing bytes, the constructor decodes to exactly those attributes. *)
+Theorem C03_decode_roundtrip : forall T ident b lbl vals bitsl a rest pad extra,
+  get_dict T ident = Some b ->
+  lay_out T ident (negb (lbl =? 2)) b vals = Some (bitsl, a, rest) ->
+  (List.length (bitsl ++ pad) mod 8 = 0)%nat ->
+  let p := pack (bitsl ++ pad) ++ extra in
+  identity p = Ok ident -> too_short p = false ->
+  exists o, construct T (Some p) lbl = Ok o /\ o_attrs o = a.
+Proof. exact decode_roundtrip. Qed.
+Goal True. idtac "PA:C03_decode_roundtrip". Abort.
+Print Assumptions C03_decode_roundtrip.
+
+(* apart from the MSM count / label attributes no other data attribute appears: the attribute names are exactly the
+   encoder's write trace (first occurrences, in order) *)
+Theorem C03_no_other_attributes : forall T ident rinex b vals s,
+  lay_out_state T ident rinex b vals = Some s -> map fst (e_attrs s) = dedup (map fst (e_occ s)).
+Proof. exact attr_names_are_trace. Qed.
+Goal True. idtac "PA:C03_no_other_attributes". Abort.
+Print Assumptions C03_no_other_attributes.
+
+(* one public attribute per field occurrence (text code units joined per key; three MSM counts) *)
+Theorem C03_one_attribute_per_occurrence : forall T ident rinex b vals s,
+  lay_out_state T ident rinex b vals = Some s -> occ_wf (e_occ s) ->
+  List.length (public (e_attrs s)) =
+    (List.length (filter is_field_occ (e_occ s)) + List.length (dedup (map fst (filter is_str_occ (e_occ s)))) +
+     List.length (filter is_count_occ (e_occ s)))%nat.
+Proof. exact one_attr_per_occurrence. Qed.
+Goal True. idtac "PA:C03_one_attribute_per_occurrence". Abort.
+Print Assumptions C03_one_attribute_per_occurrence.
+
+(* changing the bits of one plain field changes that attribute only *)
+Theorem C03_single_field_change : forall T ident b lbl pre v1 v2 post s1 s2 nm pad1 pad2 x1 x2,
+  get_dict T ident = Some b ->
+  lay_out_state T ident (negb (lbl =? 2)) b (pre ++ v1 :: post) = Some s1 ->
+  lay_out_state T ident (negb (lbl =? 2)) b (pre ++ v2 :: post) = Some s2 ->
+  nth_error (val_names (e_occ s1)) (List.length pre) = Some nm -> plain_attr T b nm = true ->
+  (List.length (e_bits s1 ++ pad1) mod 8 = 0)%nat -> (List.length (e_bits s2 ++ pad2) mod 8 = 0)%nat ->
+  let p1 := pack (e_bits s1 ++ pad1) ++ x1 in let p2 := pack (e_bits s2 ++ pad2) ++ x2 in
+  identity p1 = Ok ident -> too_short p1 = false -> identity p2 = Ok ident -> too_short p2 = false ->
+  exists o1 o2, construct T (Some p1) lbl = Ok o1 /\ construct T (Some p2) lbl = Ok o2 /\ agree_except nm (o_attrs o1) (o_attrs o2).
+Proof. exact single_field_change_parsed. Qed.
+Goal True. idtac "PA:C03_single_field_change". Abort.
+Print Assumptions C03_single_field_change.
